@@ -1,12 +1,155 @@
 import Model.Heap
 /-
-  Model/HeapCkpt.lean — (stub) checkpoint save / load on the heap world (C07).  Core Lean only.
+  Model/HeapCkpt.lean — checkpoint save / load on the heap world (C07).  Core Lean only.
   The handler works on the same `Heap.IOState` as the `heap` token, so histories can mix both.
+
+  `save_checkpoint` (agilerl/algorithms/core/base.py `get_checkpoint_dict` + `torch.save`) is a
+  by-value serialisation: the file holds the *values* of every attribute (hyper-parameters, lists,
+  registry, `init_dict` + `state_dict` of every network, optimizer state) and no reference to any
+  live object.  `EvolvableAlgorithm.load` builds a new agent from the file, `load_checkpoint`
+  re-builds every attribute of an existing agent from it; either way **every attribute of the
+  restored agent consists of freshly allocated cells**.
+
+  What the cells hold is described cell by cell by a `Fill`:
+
+  * `saved`      — the value stored in the file (the repaired code: every cell);
+  * `from k c`   — not stored, but re-derived by a hook that runs *after* the weights were loaded
+                   from the restored cell `c` of attribute `k` (a target re-synchronised with the
+                   online network, a critic's copy of the actor's encoder);
+  * `init v`     — neither: the tensor is not in any `state_dict()` (it was installed with
+                   `TensorDict.to_module`) and the hook ran *before* the weights were loaded, so the
+                   cell keeps whatever construction left there (`v`, chosen by the environment).
+                   This is the unrepaired behaviour for DQN's `actor_target` and for the encoder
+                   copies inside DDPG / TD3 / PPO critics with `share_encoders=True`.
 -/
 namespace HeapCkpt
-open Util
+open Util Heap
+
+/-- a checkpoint file: attribute → saved values (exactly `Heap.view` of the saved agent) -/
+abbrev Blob := List (List Nat)
+
+inductive Fill
+  | saved
+  | «from» (k c : Nat)
+  | init (v : Nat)
+deriving Repr, DecidableEq
+
+/-- exceptions to "every cell is restored from the file": ((attribute, cell), fill) -/
+abbrev Spec := List ((Nat × Nat) × Fill)
+
+def cellFill (sp : Spec) (k c : Nat) : Fill :=
+  match sp.find? (fun e => e.1 == (k, c)) with
+  | some e => e.2
+  | none => .saved
+
+/-- serialise agent `i` (nothing in the world changes) -/
+def save (w : World) (i : Nat) : Option Blob := view w i
+
+def blobVal (b : Blob) (k c : Nat) : Nat := (b.getD k []).getD c 0
+
+def fillVal (b : Blob) (k c : Nat) : Fill → Nat
+  | .saved => blobVal b k c
+  | .from k' c' => blobVal b k' c'
+  | .init v => v
+
+/-- the values the restored agent holds, attribute by attribute, cell by cell -/
+def restoredVals (b : Blob) (sp : Spec) : List (List Nat) :=
+  b.mapIdx fun k vs => vs.mapIdx fun c _ => fillVal b k c (cellFill sp k c)
+
+/-- allocate fresh cells for every attribute, left to right -/
+def allocAll : List Nat → List (List Nat) → List Nat × Agent
+  | h, [] => (h, [])
+  | h, vs :: rest =>
+    let al := alloc h vs
+    let r := allocAll al.1 rest
+    (r.1, al.2 :: r.2)
+
+/-- a separately constructed agent: every attribute in fresh cells holding `vss` -/
+def spawn (w : World) (vss : List (List Nat)) : World :=
+  let r := allocAll w.heap vss
+  { w with heap := r.1, agents := w.agents ++ [some r.2] }
+
+/-- `Algo.load(path)` : a new agent (index `w.agents.length`) -/
+def load (w : World) (b : Blob) (sp : Spec) : World := spawn w (restoredVals b sp)
+
+/-- `agent_j.load_checkpoint(path)` : every attribute of the live agent `j` is re-bound to fresh
+    cells; rejected when `j` is not live or has another attribute layout than the file
+    (the registry check of `load_checkpoint`) -/
+def loadInto (w : World) (b : Blob) (sp : Spec) (j : Nat) : Option World :=
+  match w.agents[j]? with
+  | some (some ag) =>
+    if ag.length = b.length then
+      let r := allocAll w.heap (restoredVals b sp)
+      some { w with heap := r.1, agents := w.agents.set j (some r.2) }
+    else none
+  | _ => none
+
+/-! ### line protocol (token `ckpt`, state shared with token `heap`) -/
+
+/-- `k.c=i<v>` | `k.c=f<k'>.<c'>` -/
+def parseFill (s : String) : Option ((Nat × Nat) × Fill) :=
+  match s.splitOn "=" with
+  | [lhs, rhs] =>
+    match lhs.splitOn "." with
+    | [k, c] =>
+      match parseNat? k, parseNat? c with
+      | some k, some c =>
+        if rhs.startsWith "i" then
+          (parseNat? (rhs.drop 1).toString).map fun v => ((k, c), Fill.init v)
+        else if rhs.startsWith "f" then
+          match ((rhs.drop 1).toString).splitOn "." with
+          | [k', c'] =>
+            match parseNat? k', parseNat? c' with
+            | some k', some c' => some ((k, c), Fill.from k' c')
+            | _, _ => none
+          | _ => none
+        else none
+      | _, _ => none
+    | _ => none
+  | _ => none
+
+def showBlob (b : Blob) : String := " | ".intercalate (b.map showNats)
 
 def step (s : Heap.IOState) : List String → Heap.IOState × String
+  | ["save", i] =>
+    match parseNat? i with
+    | some i =>
+      match save s.w i with
+      | some b => ({ s with blobs := s.blobs ++ [b] }, toString s.blobs.length)
+      | none => (s, "reject")
+    | none => (s, "bad-op")
+  | ["blob", b] =>
+    match parseNat? b with
+    | some b =>
+      match s.blobs[b]? with
+      | some bl => (s, showBlob bl)
+      | none => (s, "reject")
+    | none => (s, "bad-op")
+  | "load" :: b :: fills =>
+    match parseNat? b, allSome (fills.map parseFill) with
+    | some b, some sp =>
+      match s.blobs[b]? with
+      | some bl => ({ s with w := load s.w bl sp }, toString s.w.agents.length)
+      | none => (s, "reject")
+    | _, _ => (s, "bad-op")
+  | "loadinto" :: b :: j :: fills =>
+    match parseNat? b, parseNat? j, allSome (fills.map parseFill) with
+    | some b, some j, some sp =>
+      match s.blobs[b]? with
+      | some bl =>
+        match loadInto s.w bl sp j with
+        | some w' => ({ s with w := w' }, "ok")
+        | none => (s, "reject")
+      | none => (s, "reject")
+    | _, _, _ => (s, "bad-op")
+  | "spawn" :: sizes =>
+    -- a separately constructed agent with `sizes[k]` cells per attribute, every cell a new value
+    match parseNats? sizes with
+    | some sz =>
+      let base := s.w.heap.length
+      let vss := (initAttrs base sz).map (fun cs => cs.map (· + 1))
+      ({ s with w := spawn s.w vss }, toString s.w.agents.length)
+    | none => (s, "bad-op")
   | _ => (s, "bad-op")
 
 end HeapCkpt
